@@ -88,3 +88,35 @@ Definition sample_check (j : jv) : res unit :=
   match j with JObj _ => Ok tt | _ => Err EInvalidExt end.
 
 Definition sample_store (b : str) : option str := Some b.
+
+(** Which tokens count as float lexemes ([float_tok]): accepted  0.1  -0.0  1e+22  5e-324  1.7976931348623157e+308
+    1.5e-07  123456789012345680.0  2E5  NaN  Infinity  -Infinity ; rejected  1  -12  01.5  1.  .5  1e  1e+  0x1p3
+    nan  (1.5 followed by a space)  --1.0  1.5e3x  and the empty token. *)
+Example float_tok_samples :
+  forallb float_tok
+    [ [48; 46; 49];
+      [45; 48; 46; 48];
+      [49; 101; 43; 50; 50];
+      [53; 101; 45; 51; 50; 52];
+      [49; 46; 55; 57; 55; 54; 57; 51; 49; 51; 52; 56; 54; 50; 51; 49; 53; 55; 101; 43; 51; 48; 56];
+      [49; 46; 53; 101; 45; 48; 55];
+      [49; 50; 51; 52; 53; 54; 55; 56; 57; 48; 49; 50; 51; 52; 53; 54; 56; 48; 46; 48];
+      [50; 69; 53];
+      [78; 97; 78];
+      [73; 110; 102; 105; 110; 105; 116; 121];
+      [45; 73; 110; 102; 105; 110; 105; 116; 121] ] = true
+  /\ forallb (fun t => negb (float_tok t))
+    [ [49];
+      [45; 49; 50];
+      [48; 49; 46; 53];
+      [49; 46];
+      [46; 53];
+      [49; 101];
+      [49; 101; 43];
+      [48; 120; 49; 112; 51];
+      [110; 97; 110];
+      [49; 46; 53; 32];
+      [45; 45; 49; 46; 48];
+      [49; 46; 53; 101; 51; 120];
+      [] ] = true.
+Proof. split; vm_compute; reflexivity. Qed.
